@@ -28,6 +28,8 @@ for d in sorted(glob.glob('/verif/seeded/*/')):
     det=[];miss=[]
     for (chk,tier),(res,clause) in sorted(rows.get(sid,{}).items()):
         if res=='exit=1': det.append(f"{chk} {tier}"+(f" ({clause.strip()})" if clause else ''))
+        elif res=='exit=124':
+            miss.append(f"{chk} {tier} (undecided: the run exceeded the matrix's time limit)")
         elif res.startswith('exit='):
             h=hist[(sid,chk,tier)]
             hits=sum(1 for x in h if x=='exit=1')
